@@ -155,4 +155,15 @@ CLAIMED['C01'] = dict(
          'other threads is justified by the same contracts (closed world); invariant-per-step => all interleavings is a paper argument.',
     technique='deductive verification: step contracts under an interference (rely) model + Hoare loop rule, CBMC on mechanically lowered real code',
     design='§6 C01, §3.4')
+CLAIMED['C03'] = dict(
+    text='Kernel only: cvar_do_wait (re-lock retry loop by the Hoare loop rule; sleep and lock as stubs) and waitq::resume_one / resume_all '
+         '(loop rule with a termination variant) are lowered from /repo on every run.  Proved: wait releases the caller\'s lock exactly once as '
+         'part of going to sleep and ALWAYS returns with the lock held again (it retries until lock() succeeds); it returns 0 when woken with '
+         'the notification reason, -1/ETIMEDOUT when the sleep ran to its deadline, and -1 with the sleeper\'s errno (not the re-lock\'s) '
+         'otherwise; wait without a lock is refused.  notify_one wakes exactly one queued waiter (none only if there was none) and notify_all '
+         'wakes every queued waiter and reports their number.',
+    note=TRUST + ' NOT decided: atomic release-and-wait (it is the deferred unlock executed on the next thread\'s stack: assembly + scheduler), '
+         '"wakes exactly one thread that was waiting at that moment" across vCPUs, timeouts racing with notifications.',
+    technique='deductive verification: Hoare loop rule + stubs with stated contracts, CBMC on mechanically lowered real code',
+    design='§6 C03')
 NA = {}
